@@ -6,6 +6,7 @@ TECH = 'bounded symbolic execution of the rustc MIR of the real functions (mirsy
 NOTE = ('trusted: rustc MIR dump, the interpreter core, the library models listed in the evidence (validated by native replay / '
         'concrete differential runs), z3; bounds as stated in the evidence file; nothing outside the bounds is claimed')
 CLAIMED = {
+ 'C07': ('command names of every stated length and add_argument sequences with a fresh-bytes renderer: acceptance, rollback and one-line framing decided by z3 on every path', '4 C07'),
  'C06': ('every feasible path of Command::build/add_argument/escape_argument/CommandList::render for all argument byte vectors within '
          'the bounds is decided by z3 against a port of MPD\'s tokenizer; known escaping defects are excluded by class and re-confirmed', '4 C06'),
 }
